@@ -165,6 +165,32 @@ theorem preprocess_include_scope (fs : FS) (cwd : PathC) (prog : Program) (tr : 
     rw [nodesLoop_append_ops fs cwd prog _ A opsA (f' + 1) tr _ _ hA hD]
     simp [List.append_assoc]
 
+theorem mapM_aop_congr : ∀ (P Q : List Item), P.map (·.stmt) = Q.map (·.stmt) →
+    P.mapM (fun x => x.stmt.aop?) = Q.mapM (fun x => x.stmt.aop?)
+  | [], [], _ => rfl
+  | [], _ :: _, h => by simp at h
+  | _ :: _, [], h => by simp at h
+  | p :: P, q :: Q, h => by
+    simp only [List.map_cons, List.cons.injEq] at h
+    have ih := mapM_aop_congr P Q h.2
+    simp only [List.mapM_cons, h.1, ih]
+
+/-- the pasted text in ANY layout: any family member whose statements are those of `A`, `F`, `B` in this order -/
+theorem preprocess_pasted_any (fs : FS) (cwd : PathC) (prog : Program) (tr : List Event)
+    (head : List BlankLine) (A B F P : List Item) (hst : P.map (·.stmt) = (A ++ F ++ B).map (·.stmt)) (hW : WF head P)
+    (opsA opsB opsF : List AOp)
+    (hA : A.mapM (fun x => x.stmt.aop?) = some opsA) (hB : B.mapM (fun x => x.stmt.aop?) = some opsB)
+    (hFo : F.mapM (fun x => x.stmt.aop?) = some opsF)
+    (fuel : Nat) (hf : A.length + B.length + F.length + 2 ≤ fuel) :
+    preprocess fs cwd fuel prog (render head P) tr = .ok ((opsA ++ opsF ++ opsB).map RawOp.op, tr) := by
+  have hops : P.mapM (fun x => x.stmt.aop?) = some (opsA ++ opsF ++ opsB) := by
+    rw [mapM_aop_congr P (A ++ F ++ B) hst]
+    exact mapM_aop_append _ _ _ _ (mapM_aop_append _ _ _ _ hA hFo) hB
+  have hlen : P.length = A.length + F.length + B.length := by
+    have := congrArg List.length hst
+    simp [List.length_append] at this; omega
+  exact preprocess_full fs cwd prog tr head P hW _ hops fuel (by omega)
+
 /-! ### non-vacuity: a concrete file system on which every hypothesis holds
 
 `/a.etk` holds `stop` NEWLINE `%import("b.etk")` NEWLINE `pc`, `/b.etk` holds `jumpdest` NEWLINE.  All hypotheses of
@@ -261,6 +287,19 @@ theorem import_example :
     [.op 0x00 none] [.op 0x58 none] [.op 0x5b none] rfl rfl rfl (by decide) ⟨[]⟩ ["b.etk"] ex_root ex_check ex_read 8 (by decide)
   rw [this, path_b]
   rfl
+
+/-- the pasted program `stop⏎jumpdest⏎pc` is in the family -/
+theorem wf_pasted : WF [] (A ++ F ++ B) := by
+  refine ⟨(by intro b hb; cases hb), ?_, ?_⟩
+  · intro x hx
+    have h1 := wf_a.2.1
+    have h2 := wf_b.2.1
+    simp only [List.mem_append] at hx
+    rcases hx with (hx | hx) | hx
+    · exact h1 x (by simp [hx])
+    · exact h2 x hx
+    · exact h1 x (by simp [hx])
+  · simp [A, F, B, OpenOnlyLast, nl, Layout.Term.isOpen]
 
 end PasteExample
 
